@@ -337,12 +337,29 @@ def greedy_rules(ck, repo, nf):
         ok = len(eps) == 1 and nfp.poly(eps[0].ast.value, Scope(None, mi, {}, lq), None).canon() in ("rl_blox.blox.schedules.linear_schedule(total_timesteps)", "linear_schedule(total_timesteps)")
         ck.ob("R4-greedy", lq, "epsilon-schedule", ok, f"epsilon = {ast.unparse(eps[0].ast.value) if eps else None}", "" if ok else "epsilon must be the documented linear schedule (1.0 -> 0.1 over the first 10%) over total_timesteps", loc(mi, eps[0].ast if eps else L.fn))
         rolls = [n for n in cfg.nodes if n.kind == "stmt" and isinstance(n.ast, ast.Assign) and dotted(n.ast.targets[0]) == "epsilon_rolls"]
-        ok = len(rolls) == 1 and ast.unparse(rolls[0].ast.value).startswith("jax.random.uniform(") and "(total_timesteps,)" in ast.unparse(rolls[0].ast.value)
+        if len(rolls) != 1:
+            raise AnalysisError(f"{lq}: the exploration rolls are not a single assignment (unrecognised form)")
+        rp_ = nfp.poly(rolls[0].ast.value, Scope(None, mi, {}, lq), None)       # value-transparent wrappers (asarray, ...) are stripped
+        rm_ = nfp.meta.get(rp_.single_atom() or "", {})
+        rfn_ = rm_.get("fn", "").split(".")[-1]
+        rshape_ = rm_.get("args", [None, None])[1].canon() if len(rm_.get("args", [])) >= 2 else (rm_.get("kws", {}).get("shape").canon() if rm_.get("kws", {}).get("shape") is not None else None)
+        ok = rfn_ == "uniform" and rshape_ in ("(total_timesteps)", "total_timesteps") and not (set(rm_.get("kws", {})) - {"shape", "dtype"})
+        if not ok and rfn_ not in ("uniform", "normal", "randint", "bernoulli", "truncated_normal", "exponential", "laplace", "integers", "random", "rand"):
+            raise AnalysisError(f"{lq}: exploration rolls `{rp_.canon()[:80]}` are not a recognised random draw (unrecognised form)")
         ck.ob("R4-greedy", lq, "rolls-uniform", ok, f"epsilon_rolls = {ast.unparse(rolls[0].ast.value) if rolls else None}", "" if ok else "rolls must be U[0,1) draws, one per step", loc(mi, rolls[0].ast if rolls else L.fn))
     # defaults of the schedule
     fn = repo.func("rl_blox.blox.schedules.linear_schedule")
-    dflt = {a.arg: ast.literal_eval(d) for a, d in zip(fn.args.args[-len(fn.args.defaults):], fn.args.defaults)}
-    ok = dflt == {"start": 1.0, "end": 0.1, "fraction": 0.1}
+    dflt = {}
+    for a, d in list(zip(fn.args.args[-len(fn.args.defaults):], fn.args.defaults)) + [(a_, d_) for a_, d_ in zip(fn.args.kwonlyargs, fn.args.kw_defaults) if d_ is not None]:
+        try:
+            dflt[a.arg] = ast.literal_eval(d)
+        except Exception:
+            dflt[a.arg] = ast.unparse(d)
+    documented = {"start": 1.0, "end": 0.1, "fraction": 0.1}
+    if not set(documented) <= set(dflt):
+        raise AnalysisError(f"rl_blox.blox.schedules.linear_schedule: parameters {sorted(set(documented) - set(dflt))} have no defaults any more (anchor vanished)")
+    ok = all(dflt[k_] == v_ for k_, v_ in documented.items())
+    dflt = {k_: dflt[k_] for k_ in documented}
     ck.ob("R4-greedy", "rl_blox.blox.schedules.linear_schedule", "defaults", ok, f"{dflt}", "" if ok else "documented exploration schedule is 1.0 -> 0.1 over the first 10% of the steps", loc(fn._module, fn))
 
 
